@@ -104,7 +104,7 @@ enum Sc {
     Dist { flavour: u8, len: usize, trials: u64, seed: u64, cells_total: u64 },
     /// a source with more members than an f32 / a 24-bit index can address:
     /// members at odd and at even positions must both be chosen about half the time
-    BigDist { flavour: u8, log2_len: u32, trials: u64, seed: u64, cells_total: u64 },
+    BigDist { flavour: u8, log2_len: u32, trials: u64, seed: u64, cells_total: u64, #[serde(default)] tri: u8 },
     /// a source of 2^32 + plus zero-sized members (cheap to build): more members than a 32-bit index can
     /// address; it is non-empty, so every conversion flavour must accept it and report its member count
     Zst { plus: usize, rng: RngSpec },
@@ -403,9 +403,17 @@ fn exec_dist(f: u8, len: usize, trials: u64, seed: u64, cells_total: u64, obs: &
     v
 }
 
-fn exec_big(f: u8, log2_len: u32, trials: u64, seed: u64, cells_total: u64, obs: &mut Obs) -> Vec<Violation> {
-    let len = (1usize << log2_len) + 1;
-    let items: Vec<u8> = (0..len).map(|i| (i % 2) as u8).collect();
+fn exec_big(f: u8, log2_len: u32, trials: u64, seed: u64, cells_total: u64, tri: u8, obs: &mut Obs) -> Vec<Violation> {
+    // `tri`: 3 * 2^k members, every third one marked (a length that is a large non-power-of-two fraction of 2^32:
+    // a reduction of one 32-bit word without rejection favours a third of the members by 2^k / 2^32 each)
+    // (tri = 1) or the first third marked (tri = 2: what a remainder of one 32-bit word favours)
+    let len = if tri > 0 { 3usize << log2_len } else { (1usize << log2_len) + 1 };
+    let items: Vec<u8> = match tri {
+        0 => (0..len).map(|i| u8::from(i % 2 == 1)).collect(),
+        1 => (0..len).map(|i| u8::from(i % 3 == 0)).collect(),
+        _ => (0..len).map(|i| u8::from(i < len / 3)).collect(),
+    };
+    let what = ["every 2. position", "every 3. position", "the first third"][usize::from(tri.min(2))];
     let mut rng = FastRng::new(seed);
     let name = flavour_name(f);
     let r = catch(|| -> Option<u64> {
@@ -439,14 +447,15 @@ fn exec_big(f: u8, log2_len: u32, trials: u64, seed: u64, cells_total: u64, obs:
     obs.hit("stat-cells");
     obs.hit("probe.source-larger-than-2^24-members");
     obs.nontrivial(mix(mix(5, u64::from(f)), u64::from(log2_len)));
-    let verdict = stats::decide(trials, odd, (len / 2) as f64 / len as f64, cells_total);
+    let marked = if tri > 0 { len / 3 } else { len / 2 };
+    let verdict = stats::decide(trials, odd, marked as f64 / len as f64, cells_total);
     if verdict.violated {
         v.push(Violation::new(
             "members-equally-likely",
             format!("not-uniform-in-large-source:{name}"),
             format!(
-                "{name} over {len} members: a member at an odd position was chosen {odd} times in {trials} seeded samples (expected about half; n*KL = {:.1}, threshold {:.1})",
-                verdict.stat, verdict.threshold
+                "{name} over {len} members: one of the {marked} marked members ({what}) was chosen {odd} times in {trials} seeded samples (expected about {:.0}; n*KL = {:.1}, threshold {:.1})",
+                trials as f64 * marked as f64 / len as f64, verdict.stat, verdict.threshold
             ),
         ));
     }
@@ -720,7 +729,7 @@ impl Check for C18 {
 
     fn runs(&self, tier: Tier) -> u64 {
         dist_cells().len() as u64
-            + 6
+            + 12
             + match tier {
                 Tier::Quick => 3_000_000,
                 Tier::Thorough => 300_000_000,
@@ -743,13 +752,15 @@ impl Check for C18 {
         if (3..6).contains(&big) {
             return Sc::Zst { plus: [0usize, 1, 12345][big - 3], rng: RngSpec::swarm(g) };
         }
-        if big < 3 {
+        if big < 3 || (6..12).contains(&big) {
+            let tri = [0u8, 0, 1, 2][big / 3];
             return Sc::BigDist {
-                flavour: [0u8, 2, 10][big],
-                log2_len: 25,
-                trials: 20_000,
+                flavour: [0u8, 2, 10][big % 3],
+                log2_len: if tri > 0 { 26 } else { 25 },
+                trials: if tri > 0 { 400_000 } else { 20_000 },
                 seed: g.next_u64(),
-                cells_total: cells.iter().map(|(_, l)| *l as u64).sum::<u64>() + 3,
+                cells_total: cells.iter().map(|(_, l)| *l as u64).sum::<u64>() + 9,
+                tri,
             };
         }
         let rng = RngSpec::swarm(g);
@@ -816,7 +827,7 @@ impl Check for C18 {
             Sc::Gen { kind, size, inner, by_ref, rng } => exec_gen(*kind, *size, *inner, *by_ref, rng, obs),
             Sc::Choice { flavour, len, dup, samples, rng } => exec_choice(*flavour, *len, *dup, *samples, rng, obs),
             Sc::Dist { flavour, len, trials, seed, cells_total } => exec_dist(*flavour, *len, *trials, *seed, *cells_total, obs),
-            Sc::BigDist { flavour, log2_len, trials, seed, cells_total } => exec_big(*flavour, *log2_len, *trials, *seed, *cells_total, obs),
+            Sc::BigDist { flavour, log2_len, trials, seed, cells_total, tri } => exec_big(*flavour, *log2_len, *trials, *seed, *cells_total, *tri, obs),
             Sc::Zst { plus, rng } => exec_zst(*plus, rng, obs),
         }
     }
